@@ -36,12 +36,19 @@ def build(torch, p, qscale=1.0):
     cls, n = str(p["cls"]), int(p["n"])
     f64 = torch.float64
     tv = lambda v: torch.tensor([float(x) for x in v], dtype=f64)
+    # the floor `eps` of the positive diagonals is a constructor argument: the default and two others, chosen by the
+    # state (only where every diagonal entry of the state lies above the floor)
+    eps = EPS
+    if cls in ("LU", "SVD"):
+        dmin = min(float(rat(d)) for d in p["d"])
+        pick = (EPS, 0.05, 0.25)[(sum(int(d[0]) + int(d[1]) for d in p["d"]) + n + len(str(p.get("lo", p.get("q1", ""))))) % 3]
+        eps = pick if dmin > pick + 1e-3 else EPS
     if cls == "LU":
-        m = TR.LULinear(n).double()
+        m = TR.LULinear(n, eps=eps).double()
         with torch.no_grad():
             m.lower_entries.copy_(tv(p["lo"]))
             m.upper_entries.copy_(tv(p["up"]))
-            m.unconstrained_upper_diag.copy_(torch.tensor([sp_inv(float(rat(d)) - EPS) for d in p["d"]], dtype=f64))
+            m.unconstrained_upper_diag.copy_(torch.tensor([sp_inv(float(rat(d)) - eps) for d in p["d"]], dtype=f64))
     elif cls == "QR":
         m = TR.QRLinear(n, num_householder=len(p["qs"])).double()
         with torch.no_grad():
@@ -49,9 +56,9 @@ def build(torch, p, qscale=1.0):
             m.log_upper_diag.copy_(torch.tensor([math.log(float(rat(d))) for d in p["d"]], dtype=f64))
             m.orthogonal.q_vectors.copy_(qscale * torch.tensor([[float(x) for x in q] for q in p["qs"]], dtype=f64))
     elif cls == "SVD":
-        m = TR.SVDLinear(n, num_householder=2).double()
+        m = TR.SVDLinear(n, num_householder=2, eps=eps).double()
         with torch.no_grad():
-            m.unconstrained_diagonal.copy_(torch.tensor([sp_inv(float(rat(d)) - EPS) for d in p["d"]], dtype=f64))
+            m.unconstrained_diagonal.copy_(torch.tensor([sp_inv(float(rat(d)) - eps) for d in p["d"]], dtype=f64))
             m.orthogonal_1.q_vectors.copy_(qscale * torch.tensor([[float(x) for x in q] for q in p["q1"]], dtype=f64))
             m.orthogonal_2.q_vectors.copy_(qscale * torch.tensor([[float(x) for x in q] for q in p["q2"]], dtype=f64))
     elif cls == "Naive":
